@@ -30,14 +30,24 @@ def run(ctx, pid):
         if want and os.path.exists(pd) and (m.get("confirmed") or {}).get("valid_seeded_change", True):
             patches.append(pd)
             seeded_expect[pd] = want
-    if not patches:
+    neutral = []
+    for mp in sorted(glob.glob(os.path.join(VERIF, "neutral", "*", "meta.json"))):
+        try:
+            m = json.load(open(mp))
+        except ValueError:
+            continue
+        pd = os.path.join(os.path.dirname(mp), "patch.diff")
+        if pid in (m.get("quiet") or []) and os.path.exists(pd):
+            neutral.append(pd)
+    if not patches and not neutral:
         ctx.selftests.append({"status": "no seeded variants registered for this property"})
         return
     import importlib
     from lib import facts as F
     from lib.report import Ctx
     mod = importlib.import_module("rules." + pid)
-    for patch in patches:
+    for patch in patches + neutral:
+        is_neutral = patch in neutral
         meta_p = patch[:-6] + ".json"
         meta = json.load(open(meta_p)) if os.path.exists(meta_p) else {}
         if patch in seeded_expect:
@@ -67,8 +77,22 @@ def run(ctx, pid):
             c2.repo = scratch
             mod.run(c2)
             bad = [o for o in c2.obligations if not o["ok"]]
+            if is_neutral:
+                # behaviour-preserving refactoring: the rules must report nothing that they do not report on the tree itself
+                base = {o["key"] for o in ctx.obligations if not o["ok"]}
+                new = [o for o in bad if o["key"] not in base]
+                name = "neutral/" + os.path.basename(os.path.dirname(patch))
+                ctx.selftests.append({"patch": name, "expect": "quiet", "status": "quiet" if not new else "FALSE ALARM",
+                                      "reported": [o["key"] for o in new][:5]})
+                ctx.ob("E4", "selftest:" + name, not new,
+                       "behaviour-preserving refactoring: nothing new reported" if not new else
+                       "the rules of %s report %s on the behaviour-preserving refactoring `%s` (false alarm: checker regression)" % (
+                           pid, [o["key"] for o in new][:3], name))
+                subprocess.run(["rm", "-rf", fdir])
+                continue
             want = meta.get("expect_key_contains", "")
-            hit = [o for o in bad if want in o["key"] or want in o["instance"]]
+            wants = [w for w in want.split("||") if w] or [""]
+            hit = [o for o in bad if any(w in o["key"] or w in o["instance"] for w in wants)]
             ctx.selftests.append({"patch": _pname(patch), "expect": want,
                                   "status": "fired" if hit else "MISSED", "reported": [o["key"] for o in bad][:5]})
             ctx.ob("E4", "selftest:" + _pname(patch), bool(hit),
